@@ -324,6 +324,12 @@ def shard(tier, seed, idx, n):
             if work % n != idx:
                 continue
             run_value(res, st, v, rng, tier, full=True)
+    for v in ["\ufeff", "\ufeffhello", "hello\ufeff", "\ufffe", "\ufeff" * 3, "\x00\ufeff", "\ud7ff\ue000", "\U0010ffff", b"\xef\xbb\xbfbom-bytes",
+              "\x85\u2028\u2029", "\x1a", "\r", "\n", " lead", "trail ", "\t"]:
+        work += 1
+        if work % n != idx:
+            continue
+        run_value(res, st, v, rng, tier, full=True)
     for v in [True, False, None, 0, -1, 1 << 64, 0.0, -0.0, float("inf"), b"", "", valuegen.MyInt(5), valuegen.MyStr("s"),
               valuegen.MyBytes(b"b"), valuegen.MyList([1]), valuegen.MyDict(a=1), valuegen.Point(1, [2]), valuegen.Slotted(1, "x"),
               (1, "a", b"b", None), {"k": [1, 2.5, {"n": None}]}, frozenset([1, 2]), {1, "a"}, float("nan"), [float("nan")]]:
